@@ -104,7 +104,8 @@ def case_pred(fr, case):
             t = truthy(fr['alias_params_resolver']); ps.append(z3.Not(t) if v == 'none' else t)
         elif k == 'fb':
             fb = fr['fallback_aliases']
-            ps.append(fb == NONE if v == 'none' else z3.And(Val.is_ref(fb), lib.CALLABLE(fb)) if v == 'callable' else z3.And(Val.is_ref(fb), z3.Not(lib.CALLABLE(fb))))
+            ps.append(fb == NONE if v == 'none' else z3.And(Val.is_ref(fb), lib.CALLABLE(fb)) if v == 'callable' else z3.And(Val.is_ref(fb), z3.Not(lib.CALLABLE(fb))) if v == 'list'
+                      else z3.BoolVal(False))
         elif k == 'static':
             ps.append(Val.bv(fr['static_function']) if v == 'yes' else z3.Not(Val.bv(fr['static_function'])))
         elif k == 'ext':
@@ -143,10 +144,25 @@ def w_in_state(mode, case=None, obl=None, props=None):
     st.assume(z3.Implies(z3.And(Val.is_ref(fb), z3.Not(lib.CALLABLE(fb))), z3.And(TYP(Val.addr(fb)) == K('list'), lib.ITERABLE(fb))))
     st.assume(z3.Implies(Val.is_ref(fb), z3.Or(lib.CALLABLE(fb), TYP(Val.addr(fb)) == K('list'))))
     st.assume(z3.Implies(lib.CALLABLE(fb), TYP(Val.addr(fb)) == K('function')))
+    # the decorator's own configuration object is not one of the recorder's private containers nor the call's argument objects
+    st.assume(z3.Implies(Val.is_ref(fb), z3.And(*[Val.addr(fb) != Val.addr(o) for o in spec.objs])))
     vm = fr['value_when_missing']
     st.assume(z3.Implies(z3.And(Val.is_ref(vm), lib.CALLABLE(vm)), z3.And(TYP(Val.addr(vm)) == K('function'), Val.addr(vm) < BASE)))
     assert st.sat(), 'vacuous precondition'
-    apply_case(st, fr, case, 'w_in', obl, 'W_in.' + mode, (props or ['C02' if mode == 'playback' else 'C04'])[0])
+    if case and case.get('fb') == 'two':
+        # an additional, non-partitioning case: a fallback list of statically known length two (so that loops over the possible keys are
+        # executed exactly, whatever their shape)
+        case = dict(case, fb='list'); st.assume(case_pred(fr, case))
+        a1_, a2_ = fresh('fallback_alias_1', Str), fresh('fallback_alias_2', Str)
+        st.set_seq(fr['fallback_aliases'], z3.Concat(z3.Unit(Val.s(a1_)), z3.Unit(Val.s(a2_))))
+        # a literal list of the decorator: known spine
+        fbl = st.new_seq(z3.Concat(z3.Unit(Val.s(a1_)), z3.Unit(Val.s(a2_)))); st.g.setdefault('spine', {})[st.n] = [Val.s(a1_), Val.s(a2_)]
+        st.assume(lib.ITERABLE(fbl)); st.assume(z3.Not(lib.CALLABLE(fbl)))
+        st.frames[st.stack[-1]]['fallback_aliases'] = fbl; fr['fallback_aliases'] = fbl
+        assert st.sat(), 'vacuous case'
+    else:
+        apply_case(st, fr, case, 'w_in', obl, 'W_in.' + mode, (props or ['C02' if mode == 'playback' else 'C04'])[0])
+    st.g['cfg_fb0'] = st.seq(fr['fallback_aliases'])
     return repo, spec, ex, st, selfv, fr, node, info
 
 
@@ -158,7 +174,10 @@ def w_in_playback(props=None, case=None):
     for s, oc in paths:
         b = body_calls(s); hk = hooks(s)
         obl.append(Obl('C02/%s/no_cassette_or_recording_writes' % U, 'C02', s, no_cassette_events(s), oc))
-        obl.append(Obl('C09/%s/flag_restored' % U, ('C09', 'C05', 'C02', 'C01'), s, flag_restored(s, selfv), oc))
+        obl.append(Obl('C09/%s/flag_restored' % U, ('C09', 'C05', 'C02', 'C01', 'C03'), s, flag_restored(s, selfv), oc))
+        # frame: the decorator's configuration (its fallback alias list) is the same for every call -- it is never modified
+        obl.append(Obl('C02/%s/decorator_configuration_not_modified' % U, ('C02', 'C01', 'C09'), s,
+                       z3.Implies(Val.is_ref(fr['fallback_aliases']), s.g['seq'][Val.addr(fr['fallback_aliases'])] == s.g['cfg_fb0']), oc))
         found = 'found_index' in s.g
         kf_exc = [t for t in hk if t['name'] in ('alias_params_resolver', 'fallback_aliases') and t['outcome'][0] == 'raise']
         if found:
@@ -177,7 +196,15 @@ def w_in_playback(props=None, case=None):
                            z3.Implies(z3.Not(norke), z3.BoolVal(len(b) == 0 and not any(t['name'] == 'value_when_missing' for t in hk))), oc,
                            finding='C02-recorded-key-error'))
             # first present key wins: the key consulted is possible_keys[j] with j the first present index
-            obl.append(Obl('C02/%s/present/first_present_key_is_used' % U, 'C02', s, nd[0][2] == s.g['found_key'], oc))
+            obl.append(Obl('C02/%s/present/first_present_key_is_used' % U, ('C02', 'C01'), s, nd[0][2] == s.g['found_key'], oc))
+            # ... stated independently of how the code searches: whenever the main key (alias + captured arguments of THIS call) is in the
+            # recording it is the one consulted; a fallback key is consulted only when the main key is absent
+            old_ = s.g['old']; ka_ = Val.addr(fr['kwargs']); pbr = old_.get('pb')
+            res_ = [t for t in hk if t['name'] == 'alias_params_resolver' and t['outcome'][0] == 'ret']
+            al_ = Val.s(FA(fr['alias'], res_[0]['outcome'][1])) if res_ else fr['alias']
+            mk_ = Val.s(KF(al_, fr['capture_args'], fr['static_function'], old_['seq'][Val.addr(fr['args'])], old_['ddom'][ka_], old_['dmap'][ka_]))
+            obl.append(Obl('C02/%s/present/main_key_has_priority_over_fallbacks' % U, ('C02', 'C01'), s,
+                           z3.Implies(old_['ddom'][Val.addr(pbr)][mk_], nd[0][2] == mk_), oc))
             if oc[0] == 'raise':
                 rest = [t for t in hk if t['name'] == 'restore_input_from_recording' and t['outcome'][0] == 'raise']
                 obl.append(Obl('C01/%s/replay/raises_copy_of_recorded_exception' % U, 'C01', s,
@@ -199,7 +226,7 @@ def w_in_playback(props=None, case=None):
         if kf_exc and oc[0] == 'raise' and s.entails(oc[1] == kf_exc[0]['outcome'][1]):
             obl.append(Obl('C02/%s/keyfail/interrupt_from_hook_only' % U, 'C02', s, z3.Not(is_exc(oc[1])), oc)); continue
         if 'none_present' not in s.g:
-            obl.append(Obl('C02/%s/exit_without_lookup' % U, 'C02', s, z3.BoolVal(False), oc)); continue
+            obl.append(Obl('C02/%s/exit_without_lookup' % U, ('C02', 'C01'), s, z3.BoolVal(False), oc)); continue
         sub_calls = [t for t in hk if t['name'] == 'value_when_missing']
         if len(b) == 1:
             obl.append(Obl('C02/%s/missing/run_original_only_if_opted_in' % U, 'C02', s, run_orig, oc))
@@ -226,7 +253,7 @@ def w_in_recording(props=None, case=None):
     paths = norm(ex.block(node.body, st)); U = 'W_in.recording'
     for s, oc in paths:
         transparency(obl, U, s, oc, fr)
-        obl.append(Obl('C09/%s/flag_restored' % U, ('C09', 'C05', 'C02', 'C01'), s, flag_restored(s, selfv), oc))
+        obl.append(Obl('C09/%s/flag_restored' % U, ('C09', 'C05', 'C02', 'C01', 'C03'), s, flag_restored(s, selfv), oc))
         writes = [ev for ev in s.events if ev[0] == 'setitem']
         written = z3.Or(*[ev[1] == s.g['old']['active'] for ev in writes]) if writes else z3.BoolVal(False)
         discarded = s.rd(selfv, '_active_recording') == NONE
@@ -282,7 +309,7 @@ def w_out(mode='playback', props=None, case=None):
     sent = z3.If(Val.bv(fr['static_function']), args0, z3.SubSeq(args0, 1, z3.Length(args0) - 1))
     for s, oc in paths:
         b = body_calls(s)
-        obl.append(Obl('C09/%s/flag_restored' % U, ('C09', 'C05', 'C02', 'C01'), s, flag_restored(s, selfv), oc))
+        obl.append(Obl('C09/%s/flag_restored' % U, ('C09', 'C05', 'C02', 'C01', 'C03'), s, flag_restored(s, selfv), oc))
         prep = hooks(s, 'prepare_output_for_recording')
         hookfail = any(t['outcome'][0] == 'raise' for t in prep)
         if mode == 'playback':
@@ -416,10 +443,10 @@ def w_op_recording(props=None, case=None):
             # skipped class: pure pass-through, nothing created
             transparency(obl, U + '.skipped', s, oc, fr)
             obl.append(Obl('C17/%s/skipped_class_starts_no_recording' % U, 'C17', s, no_cassette_events(s), oc))
-            obl.append(Obl('C09/%s/idle_after' % U, ('C09', 'C05', 'C17'), s, idle(s, selfv), oc))
+            obl.append(Obl('C09/%s/idle_after' % U, ('C09', 'C05', 'C17', 'C03'), s, idle(s, selfv), oc))
             continue
         transparency(obl, U, s, oc, fr)
-        obl.append(Obl('C09/%s/idle_after' % U, ('C09', 'C05', 'C17'), s, idle(s, selfv), oc))
+        obl.append(Obl('C09/%s/idle_after' % U, ('C09', 'C05', 'C17', 'C03'), s, idle(s, selfv), oc))
         if r is None:
             obl.append(Obl('C05/%s/recording_created' % U, 'C05', s, z3.BoolVal(False), oc)); continue
         cnt = z3.IntVal(0)
